@@ -177,14 +177,15 @@ func (g *Gen) copyStructElems(st *State, elT types.Type, s *types.Struct, nr str
 	structFieldKeys(typeName(elT), s, &keys)
 	for _, k := range keys {
 		isB := k[1] == "bool"
-		if isB {
-			continue // bool fields of appended struct elements: left unconstrained (rare; sound)
-		}
-		cur := g.hsfGet(st, k[0], false)
+		cur := g.hsfGet(st, k[0], isB)
 		aArr := fmt.Sprintf("(select %s %s)", cur, zeroRef(a.Ref))
 		bArr := fmt.Sprintf("(select %s %s)", cur, zeroRef(b.Ref))
-		n := g.seqJoin(st, "sf", aArr, a.Off, a.Len, bArr, b.Off, b.Len, "0")
-		st.hsf[k[0]] = g.def("Hsf", hsfSortInt, fmt.Sprintf("(store %s %s %s)", cur, nr, n))
+		srt, inner := hsfSortInt, "(Array Int Int)"
+		if isB {
+			srt, inner = hsfSortBool, "(Array Int Bool)"
+		}
+		n := g.seqJoinSort(st, "sf", inner, aArr, a.Off, a.Len, bArr, b.Off, b.Len, "0")
+		st.hsf[k[0]] = g.def("Hsf", srt, fmt.Sprintf("(store %s %s %s)", cur, nr, n))
 	}
 }
 
